@@ -8,6 +8,7 @@
 
 package robytes
 
+//@ pure words
 //@ pure toCamelCase
 //@ pure capitalize
 //@ pure ellipsis
@@ -95,4 +96,46 @@ package robytes
 //@   maypanic
 //@   track call.TrimSpace
 //@   ensures [too-long-is-cut-then-trimmed-again|C18] !panics && len(res(call.TrimSpace)) > length && len(res(call.TrimSpace)) >= 3 && length >= 3 ==> count(call.TrimSpace) == 2
+
+//@ func kebabCase
+//@   note as the string flavour: the words of the text, each lower-cased, joined with the same separator
+//@   props C18
+//@   track call.ToLower call.ToUpper call.Join callfn.* loop.*
+//@   ensures [every-word-converted-then-joined-with-its-separator|C18] trace(loop.L0, call.Join(_, _))
+
+//@ loop kebabCase#0
+//@   noexit
+//@   invariant 0 <= it && it <= len(ranged)
+//@   iteration ensures count(call.ToLower) == 1 && count(call.ToUpper) == 0 && count(callfn.ANY) == 0
+
+
+//@ func snakeCase
+//@   note as the string flavour: the words of the text, each lower-cased, joined with the same separator
+//@   props C18
+//@   track call.ToLower call.ToUpper call.Join callfn.* loop.*
+//@   ensures [every-word-converted-then-joined-with-its-separator|C18] trace(loop.L0, call.Join(_, elems(95)))
+
+//@ loop snakeCase#0
+//@   noexit
+//@   invariant 0 <= it && it <= len(ranged)
+//@   iteration ensures count(call.ToLower) == 1 && count(call.ToUpper) == 0 && count(callfn.ANY) == 0
+
+
+//@ func pascalCase
+//@   note as the string flavour: the words of the text, each capitalised, joined with the same separator
+//@   props C18
+//@   track call.ToLower call.ToUpper call.Join callfn.* loop.*
+//@   ensures [every-word-converted-then-joined-with-its-separator|C18] trace(loop.L0, call.Join(_, _))
+
+//@ loop pascalCase#0
+//@   noexit
+//@   invariant 0 <= it && it <= len(ranged)
+//@   iteration ensures count(call.ToLower) == 0 && count(call.ToUpper) == 0 && count(callfn.ANY) == 0
+
+//@ func capitalize
+//@   note title-casing by golang.org/x/text with the English rules, made afresh for every call (a Caser is stateful and must not be shared), applied to the text it is given
+//@   props C18
+//@   binds str
+//@   track call.*
+//@   ensures [a-fresh-english-title-caser-applied-to-the-text|C18] count(call.Title) == 1 && count(call.ANY) == 2
 
